@@ -12,18 +12,24 @@ def srcName : EnvSrc → String
   | .frameGlobals => "frameGlobals" | .frameLocals => "frameLocals"
   | .agentGlobals => "agentGlobals" | .agentLocals => "agentLocals"
 
+def runOne (j : Json) : Except String Json := do
+  let cfg ← parseCfg (← j.getObjVal? "cfg")
+  let hits ← (← getArr j "hits").toList.mapM (fun h => do
+    pure (Hit.mk (← getInt h "ts") (← parseOutcome (← h.getObjVal? "cond"))))
+  let tr := traceFrom cfg Stats.init hits
+  let st := (runFrom cfg Stats.init hits).1
+  pure (Json.mkObj [("fired", Json.arr (tr.map (fun r => Json.bool r.1)).toArray),
+                    ("evals", Json.arr (tr.map (fun r => toJson r.2)).toArray),
+                    ("count", toJson st.count), ("last", toJson st.last)])
+
 def handle (j : Json) : Except String Json := do
   let op ← getStr j "op"
   match op with
-  | "run" =>
-    let cfg ← parseCfg (← j.getObjVal? "cfg")
-    let hits ← (← getArr j "hits").toList.mapM (fun h => do
-      pure (Hit.mk (← getInt h "ts") (← parseOutcome (← h.getObjVal? "cond"))))
-    let tr := traceFrom cfg Stats.init hits
-    let st := (runFrom cfg Stats.init hits).1
-    pure (Json.mkObj [("fired", Json.arr (tr.map (fun r => Json.bool r.1)).toArray),
-                      ("evals", Json.arr (tr.map (fun r => toJson r.2)).toArray),
-                      ("count", toJson st.count), ("last", toJson st.last)])
+  | "run" => runOne j
+  | "runN" =>
+    -- several tracepoints at one location: each action has its own condition and its own limiter state
+    let rs ← (← getArr j "runs").toList.mapM runOne
+    pure (Json.mkObj [("runs", Json.arr rs.toArray)])
   | "resolve" =>
     -- each name says where it is bound; values are tags telling which binding was found
     let names ← (← getArr j "names").toList.mapM (fun r => do
